@@ -34,7 +34,25 @@ import gen_c11
 # independent facts about the input (no pyflyby involved)
 # ---------------------------------------------------------------------------------------------
 
+def _nfkc(x):
+    import unicodedata
+    return unicodedata.normalize("NFKC", x) if isinstance(x, str) else x
+
+
+def _nfkc_deep(x):
+    if isinstance(x, list):
+        return [_nfkc_deep(y) for y in x]
+    return _nfkc(x)
+
+
+def nfkc_import(i):
+    """the import with its identifiers NFKC-normalised: what the parser reads, and what every constructor of
+    `Import` must therefore hold (repair cf6ff00)"""
+    return dict(i, mod=_nfkc(i["mod"]), name=_nfkc(i["name"]), **{"as": _nfkc(i["as"])})
+
+
 def canon_import(i):
+    i = nfkc_import(i)
     """Canonical (kind, module, level, name, asname) that the statement-level import `i` denotes, as a
     formatter must re-emit it.  Two documented canonicalisations of pyflyby (Import docstring):
     `x as x` drops the alias, and `import a.b as c` is `from a import b as c`."""
@@ -437,6 +455,12 @@ class C11(Prop):
             return obs
         obs["out"] = out
         try:
+            # "parsed again, denotes exactly the same imports" in pyflyby's own terms: the set read back is EQUAL to
+            # the set that was formatted (whatever way that set was built)
+            obs["reparse_equal"] = bool(ImportSet(out) == S)
+        except Exception as e:
+            obs["reparse_equal"] = "exc:" + err_enum(e)
+        try:
             obs["refmt"] = ImportSet(out).pretty_print(params=mk_params(case))
         except Exception as e:
             obs["refmt_err"] = err_enum(e) + ": " + str(e)[:150]
@@ -540,6 +564,9 @@ class C11(Prop):
             dup = sorted(str(k) for k, v in got.items() if v > 1)[:5]
             fails.append(dict(what="re-parsed imports differ from the input set", lost=lost, extra=extra, duplicated=dup,
                               out=out[:400], **brief))
+        if not fails and obs.get("reparse_equal") is not True and "reparse_equal" in obs:
+            fails.append(dict(what="the set parsed back from the formatted text is not equal to the set that was formatted",
+                              got=obs.get("reparse_equal"), out=out[:400], **brief))
         if "refmt_err" in obs:
             fails.append(dict(what="re-formatting the re-parsed set raised", err=obs["refmt_err"], out=out[:400], **brief))
         elif obs["refmt"] != out:
@@ -588,7 +615,7 @@ class C11(Prop):
         if case.get("kind") == "seq":
             return [r for _, r in self.seq_requests(case, obs)]
         p = case["params"]
-        reqs = [dict(op="pretty", splits=[list(split_of(i)) for i in case["imports"]], **params_json(p, self.d2fix))]
+        reqs = [dict(op="pretty", splits=[list(split_of(nfkc_import(i))) for i in case["imports"]], **params_json(p, self.d2fix))]
         if "out" in obs:
             reqs.append(dict(op="parse", text=obs["out"]))
         return reqs
@@ -598,7 +625,7 @@ class C11(Prop):
         if "err" in obs:
             return []
         out = []
-        splits = [list(split_of(i)) for i in case["imports"]]
+        splits = [list(split_of(nfkc_import(i))) for i in case["imports"]]
         for k, st in enumerate(case["steps"]):
             op = st["op"]
             if op == "pp":
@@ -614,11 +641,11 @@ class C11(Prop):
                         out.append(((k, "stmt_pp", j), dict(op="stmt_pretty", fromname=f["stmt"][0], aliases=f["stmt"][1], col=c["col"], fs=c["fs"],
                                                              **params_json(c["params"], self.d2fix))))
             elif op in ("with", "union"):
-                out.append(((k, "set"), dict(op="pretty", splits=splits + [list(split_of(i)) for i in st["other"]],
+                out.append(((k, "set"), dict(op="pretty", splits=splits + [list(split_of(nfkc_import(i))) for i in st["other"]],
                                              **params_json(st["params"], self.d2fix))))
             elif op == "without":
                 gone = set(canon_import(i) for i in st["remove"])
-                rest = [list(split_of(i)) for i in case["imports"] if canon_import(i) not in gone]
+                rest = [list(split_of(nfkc_import(i))) for i in case["imports"] if canon_import(i) not in gone]
                 out.append(((k, "set"), dict(op="pretty", splits=rest, **params_json(st["params"], self.d2fix))))
         return out
 
@@ -660,7 +687,8 @@ class C11(Prop):
                 return None if "err" in r else f"ast.parse rejects ({a}) but the reference grammar accepts: {r.get('ok')!r}"
             if "err" in r:
                 return f"ast.parse accepts {a!r} but the reference grammar rejects"
-            return None if r["ok"] == a else f"reference grammar parsed {r['ok']!r}, ast.parse {a!r}"
+            # (identifiers: the reference grammar reads the characters, the compiler normalises them to NFKC)
+            return None if _nfkc_deep(r["ok"]) == a else f"reference grammar parsed {r['ok']!r}, ast.parse {a!r}"
         r = resps[0]
         if "err" in obs:
             if obs["err"].startswith("construct:"):
@@ -683,7 +711,7 @@ class C11(Prop):
         else:
             if "err" in r2:
                 return f"ast.parse accepts the output but the reference grammar rejects it: {obs['out']!r}"
-            if r2["ok"] != a:
+            if _nfkc_deep(r2["ok"]) != a:
                 return f"reference grammar parsed {r2['ok']!r}, ast.parse {a!r}"
         # hypothesis flags of the theorems: they must hold on the whole generated domain (else the theorems say nothing there)
         if not r.get("valid"):
